@@ -1638,3 +1638,80 @@ def confusion_key_positions_rule(ctx, rid):
             ctx.ob(rid, k, not bad, f'`{ast.unparse(bad[0])}` picks one position of the key: the other positions are assumed, not read' if bad else '', mod.rel, node.lineno)
     if n == 0:
         raise AnalysisError('no consumer of confusion_map.items() found')
+
+
+def homogeneous_moment_predicate_rule(ctx, rid):
+    """validate_all_measurements, interpreted on the four kinds of moment."""
+    repo = ctx.repo
+    m = repo.module('cirq-core/cirq/devices/noise_model.py')
+    fn = m.defs.get('validate_all_measurements')
+    ctx.decided.append(f'{rid} validate_all_measurements: all measurements -> True, no measurement (also the empty moment) -> False, mixed -> ValueError')
+    ctx.rule(rid, 'measurement-moment test: validate_all_measurements, which the noise models use to choose between gate noise and readout noise for a whole moment, interpreted on model '
+             'moments: only measurements -> True; only other operations -> False; an empty (idle) moment -> False (it gets gate / idle noise, not readout noise); a mixture raises',
+             floor=4, style='FDX')
+    if not isinstance(fn, ast.FunctionDef):
+        raise AnalysisError('noise_model.validate_all_measurements vanished')
+    p0 = fn.args.args[0].arg
+
+    def call_hook(call, it):
+        if ast.unparse(call.func).split('.')[-1] == 'is_measurement':
+            return bool(it.ev(call.args[0]))
+        return NotImplemented
+    for name, moment, want in (('measurements', [True, True], True), ('operations', [False, False, False], False), ('empty', [], False), ('one-measurement', [True], True),
+                               ('mixed', [True, False], 'raise'), ('mixed2', [False, True, True], 'raise')):
+        it = fdx.NumInterp({p0: list(moment)}, call_hook=call_hook)
+        try:
+            got = it.call(fn)
+        except fdx.Raised:
+            got = 'raise'
+        except fdx.Unsupported as ex:
+            raise AnalysisError(f'cannot interpret validate_all_measurements: {ex}')
+        ok = got == want and (isinstance(got, str) or isinstance(got, (bool, np.bool_)))
+        ctx.ob(rid, f'cirq.devices.noise_model.validate_all_measurements:{name}', ok, '' if ok else
+               f'a moment of kind `{name}` ({moment}) gives {got!r}, expected {want!r}', m.rel, fn.lineno)
+
+
+def configured_duration_first_rule(ctx, rid):
+    """ThermalNoiseModel: the duration a wait gate carries is a default; the configured gate_durations_ns table is consulted before it."""
+    from ..flow import PathWalker
+    repo = ctx.repo
+    ci = repo.cls('cirq.devices.thermal_noise_model.ThermalNoiseModel')
+    ctx.decided.append(f'{rid} ThermalNoiseModel consults the configured gate_durations_ns before it falls back to the duration a WaitGate carries')
+    ctx.rule(rid, 'configured durations override defaults: in ThermalNoiseModel, on every path that reads the duration carried by the operation\'s own gate (`<op>.gate.duration`), the '
+             'configured table `self.gate_durations_ns` has been consulted before (the documented meaning of gate_durations_ns: "will override default values for gate duration, if any '
+             '(e.g. WaitGate)")', floor=1, style='MPT')
+    n = 0
+    for mn, fn in sorted(ci.methods.items()):
+        reads = [x for x in ast.walk(fn) if isinstance(x, ast.Attribute) and x.attr == 'duration' and isinstance(x.value, ast.Attribute) and x.value.attr == 'gate']
+        if not reads:
+            continue
+
+        def has(node, pred):
+            return any(pred(x) for x in ast.walk(node))
+
+        def is_table(x):
+            return isinstance(x, ast.Attribute) and x.attr in ('gate_durations_ns', '_gate_durations_ns') and isinstance(x.value, ast.Name) and x.value.id == 'self'
+
+        def is_own(x):
+            return isinstance(x, ast.Attribute) and x.attr == 'duration' and isinstance(x.value, ast.Attribute) and x.value.attr == 'gate'
+        found = []
+
+        def transfer(node, st):
+            seen = st
+            if has(node, is_own) and not seen:
+                found.append(node)
+            if has(node, is_table):
+                seen = True
+            return [seen]
+        w = PathWalker(transfer)
+        try:
+            w.run(fn, False)
+        except RuntimeError as e:
+            ctx.unres(rid, f'{ci.qual}.{mn}', str(e), ci.mod.rel, fn.lineno)
+            continue
+        n += 1
+        ctx.ob(rid, f'{ci.qual}.{mn}:table-before-own-duration', not found, '' if not found else
+               f'line {found[0].lineno}: the duration carried by the gate itself is used on a path that has not looked at self.gate_durations_ns: a configured duration for that gate '
+               'type is ignored', ci.mod.rel, getattr(found[0], 'lineno', fn.lineno) if found else fn.lineno)
+    if n == 0:
+        raise AnalysisError('ThermalNoiseModel: no method reads <op>.gate.duration any more')
